@@ -166,6 +166,7 @@ theorem laterAnn_noSpecial (cfg : Config) (pid : Nat) (cut : Option Nat) (rest :
     | switchIn => simpa [laterAnn] using ih'
     | switchOut => simpa [laterAnn] using ih'
     | sched => simpa [laterAnn] using ih'
+    | otherEvent => simpa [laterAnn] using ih'
 
 theorem expectedSamples_go_legacySp (cfg : Config) (rs : List Rec) (h : noSpecial rs = true) :
     ∀ (st : List (Nat × Announced)) (mx : List (Nat × Nat)) (last : Last),
